@@ -14,6 +14,7 @@ is a *mechanism* signature (never a case hash).
 import collections
 import hashlib
 import math
+import json
 import os
 import random
 import time
@@ -177,6 +178,23 @@ class Ctx(object):
         "detail": jsonable(detail),
         "seed": self.seed, "tier": self.tier, "shard": self.shard,
       })
+    if self.vio_per_key[key] == 1:
+      self.dump_partial()
+
+  partial_path = None
+
+  def dump_partial(self):
+    """Witnesses recorded so far survive a later hang of this shard (the
+    driver reads this file when the watchdog had to kill the process)."""
+    if not self.partial_path:
+      return
+    try:
+      tmp = self.partial_path + ".tmp"
+      with open(tmp, "w") as f:
+        json.dump(self.result(), f)
+      os.replace(tmp, self.partial_path)
+    except Exception:  # noqa
+      pass
 
   def crash(self, case, exc):
     """An exception escaped run_case.  With an audiolazy frame in the
